@@ -35,6 +35,7 @@ type Op struct {
 	Mod string        `json:"mod,omitempty"` // S: "" | flip | trunc-salt | trunc-tag | badtype | truncaddr | private | loopback | domain | empty | raw:<dst>
 	D   time.Duration `json:"d,omitempty"`   // A; sub-operations of P: delay before acting
 	Par []Op          `json:"par,omitempty"` // P: operations issued concurrently by separate threads
+	Raw []byte        `json:"raw,omitempty"` // S: the whole authenticated plaintext (address header included)
 }
 
 func (o Op) String() string { b, _ := json.Marshal(o); return string(b) }
@@ -280,6 +281,9 @@ func Run(cfg Config, ops []Op, tr *Trace) {
 				hdr = world.Addr(dst)
 			}
 			plain := append(append([]byte{}, hdr...), payload...)
+			if op.Raw != nil {
+				plain, payload = op.Raw, nil
+			}
 			wire := world.PackUDP(key, uint64(i*16+op.C), plain)
 			switch op.Mod {
 			case "flip":
